@@ -68,6 +68,11 @@ def run_transition(names, cs, action, own, seed=0, script=None, share=None, sub=
         if present:
             sub = present[(seed // 5) % len(present)]
     s = wire.mkstate(cs, share=(seed % 3 == 1) if share is None else share, sub=sub)      # one case in three: equal stateless objects are shared instances
+    if seed % 4 == 3 and sub is None:
+        # one case in four: the functions work on the library's own COPY of the state (what transition_with_copy / functional_step do);
+        # a copy that loses or merges anything shows up in every oracle that compares the result with the input
+        from gym_gridverse.utils.fast_copy import fast_copy
+        s = fast_copy(s)
     with Journal(seed, script) as j:
         try:
             for n in names:
